@@ -3337,9 +3337,14 @@ validate_trait_instance(
     PyObject *type_info = trait->py_validate;
     Py_ssize_t kind = PyTuple_GET_SIZE(type_info);
 
+    /* None is valid exactly when the type_info tuple has a None slot
+       (allow_none); it is never tested against the class, of which it may
+       happen to be an instance (object, NoneType). */
     if (((kind == 3) && (value == Py_None))
-        || (PyObject_IsInstance(value, PyTuple_GET_ITEM(type_info, kind - 1))
-            > 0)) {
+        || ((value != Py_None)
+            && (PyObject_IsInstance(
+                    value, PyTuple_GET_ITEM(type_info, kind - 1))
+                > 0))) {
         Py_INCREF(value);
         return value;
     }
@@ -4066,9 +4071,10 @@ validate_trait_complex(
             case 1: { /* Instance check: */
                 Py_ssize_t kind = PyTuple_GET_SIZE(type_info);
                 if (((kind == 3) && (value == Py_None))
-                    || (PyObject_IsInstance(
-                            value, PyTuple_GET_ITEM(type_info, kind - 1))
-                        > 0)) {
+                    || ((value != Py_None)
+                        && (PyObject_IsInstance(
+                                value, PyTuple_GET_ITEM(type_info, kind - 1))
+                            > 0))) {
                     goto done;
                 }
                 break;
